@@ -3,14 +3,15 @@ from . import core, devs_common as D
 
 PROP = "C15"
 DRIVER = "drv_devs"
-LEAN_MODULES = ["MesaModel.Props.C15"]
+LEAN_MODULES = ["MesaModel.Props.C15", "MesaModel.Props.C14Life"]
 THEOREMS = ["Mesa.Devs." + t for t in (
     "C15_chunking", "C15_fuel_irrelevant", "C15_abm_steps_eq_clock", "C15_step_once_per_tick",
     "C15_step_always_armed", "C15_step_before_lower_priority", "C15_abm_steps_track_clock",
     "C15_interrupted_run_resumed", "C15_normal_run_is_uninterrupted_run", "C15_chunking_with_exceptions",
     "C15_abm_steps_eq_clock_after_resume", "C15_uninterrupted_run_is_resumed_run", "C15_uninterrupted_run_fuel_irrelevant",
-    "C15_resumed_in_pieces_eq_resumed_in_one_piece", "C15_chunking_with_exceptions_progress")]
-COUNTS = {"quick": 500, "thorough": 150000}
+    "C15_resumed_in_pieces_eq_resumed_in_one_piece", "C15_chunking_with_exceptions_progress",
+    "C15_life_abm_step_invariant", "C15_life_steps_track_clock", "C15_life_abm_second_setup_refused")]
+COUNTS = {"quick": 540, "thorough": 162000}
 TRUSTED = [
     "CPython heapq pop-min; refcount weakref death; exact dyadic time arithmetic (see C14)",
     "Model._wrapped_step increments model.steps before the user's step body (property C05)",
@@ -23,7 +24,8 @@ RULE = ("two streams: (a) chunking — programs (30% with a raise somewhere) + u
         "run_until / run_for / run_next_event pieces that stay within T (a piece may be cut short by an exception, which the program "
         "catches), then run_until(T) again and again until it returns normally; the oracle re-runs the same program on the implementation "
         "in ONE piece (run_until(T) resumed after every exception) and compares the whole trace, clock and steps; (b) mixed ABM histories, "
-        "shared-callable and raise streams with the steps==clock clause (steps tracks the clock in aborted states). non-trivial = the "
+        "shared-callable and raise streams with the steps==clock clause (steps tracks the clock in aborted states); (c) ABM lifecycle histories "
+        "(refused run calls and setups, resets, setup again: steps == clock after every accepted run to a whole tick). non-trivial = the "
         "partition has >= 2 pieces and >= 2 events executed; distinct by sha1 of the op lines")
 
 
@@ -86,6 +88,17 @@ def gen_chunk(R):
 
 
 def generate(rng, tier, count):
+    # the lifecycle stream comes last, from a generator of its own: the other streams are what they were before it was added
+    n_life = count // 13
+    yield from _generate(rng, count - n_life)
+    import random as _random
+    R2 = _random.Random()
+    R2.setstate(rng.getstate())
+    for _ in range(n_life):
+        yield D.gen_lifecycle(R2, kind="abm")
+
+
+def _generate(rng, count):
     for i in range(count):
         if i % 3 != 2:
             yield gen_chunk(rng)
@@ -130,7 +143,7 @@ def nontrivial(sc, obs):
 
 def tags(sc, obs):
     yield "kind:" + sc.lines[0].split()[1]
-    yield "stream:" + ("chunking" if sc.meta.get("chunk") else "mixed-abm")
+    yield "stream:" + ("chunking" if sc.meta.get("chunk") else "lifecycle" if sc.meta.get("lifecycle") else "mixed-abm")
     for l in sc.lines:
         w = l.split()[0]
         if w in ("until", "for", "next", "stepprog"):
@@ -142,3 +155,4 @@ def tags(sc, obs):
             yield f"resumes:{min(sum(1 for o in obs if o.startswith('err Raised')), 6)}"
     yield from sorted(D.raise_tags(sc, sc.meta.get("trace") or []))
     yield from sorted(D.shared_tags(sc.meta.get("trace") or []))
+    yield from sorted(D.life_tags(sc, obs))
